@@ -18,7 +18,11 @@ def spec(fn):
 
 
 def _call(ex, f, *args):
-    return ex.call(f, list(args), {})
+    ex.pure += 1  # spec closures are evaluated lazily: always as pure formulas
+    try:
+        return ex.call(f, list(args), {})
+    finally:
+        ex.pure -= 1
 
 
 @spec
@@ -88,6 +92,9 @@ def length(ex, s):
 
 @spec
 def is_int(ex, v):
+    """a Python int (IntEnum members included), not a bool, not a numpy integer"""
+    if isinstance(v, Sym):
+        return v.ty == "int" and not v.np
     return ops.is_intlike(v) and not isinstance(v, bool)
 
 
@@ -121,3 +128,191 @@ def same(ex, a, b):
     from .contract import value_equal
 
     return value_equal(ex, a, b)
+
+
+@spec
+def colmajor(ex, a):
+    """the elements of a 1-D sequence in order, of a 2-D array in column-major order (spec of 'read column-major')"""
+    if isinstance(a, Arr2V):
+        src = a.copy()
+        R, Cn = src.rows, src.cols
+        if isinstance(R, int) and isinstance(Cn, int):
+            return SeqV.of("list", [src.fn(i, j) for j in range(Cn) for i in range(R)])
+        Rt, Ct = term(R, "int"), term(Cn, "int")
+
+        def at(k):
+            kt = term(k, "int")
+            return src.fn(lib._mk(kt % Rt), lib._mk(kt / Rt))
+
+        return SeqV("list", [Blk(z3.simplify(Rt * Ct), at)])
+    if isinstance(a, SeqV):
+        return a.copy("list")
+    if isinstance(a, lib.Arr0V):
+        return SeqV.of("list", [a.v])
+    return SeqV.of("list", [a])
+
+
+# ----------------------------------------------------------------------------- text / tip predicates
+
+
+@spec
+def is_str(ex, v):
+    return lib.isinstance_(ex, v, _B("str"))
+
+
+@spec
+def is_float(ex, v):
+    return lib.isinstance_(ex, v, _B("float"))
+
+
+@spec
+def is_none(ex, v):
+    return v is None
+
+
+@spec
+def is_nan(ex, v):
+    return isinstance(v, float) and v != v
+
+
+def _B(name):
+    from .engine import BuiltinV
+
+    return BuiltinV(name)
+
+
+@spec
+def valid_text(ex, v):
+    """a str without the field separator"""
+    if not lib.isinstance_(ex, v, _B("str")):
+        return False
+    c = ops.contains(ex, v, ";")
+    return (not c) if isinstance(c, bool) else mk_bool(z3.Not(unwrap_bool(c)))
+
+
+@spec
+def valid_text32(ex, v):
+    """a str of at most 32 characters without the field separator"""
+    if not lib.isinstance_(ex, v, _B("str")):
+        return False
+    c = valid_text(ex, v)
+    ln = lib.b_len(ex, v)
+    return ops.and_(ex, c, ops.compare(ex, "<=", ln, 32))
+
+
+@spec
+def pow2(ex, n):
+    if isinstance(n, int):
+        return 2 ** n
+    return mk_num(ops.pow2_term(term(n, "int")), "int")
+
+
+def _tip_cls(ex):
+    from .engine import ModuleRef
+
+    return ex.module_attr(ModuleRef("robotools.evotools.types"), "Tip")
+
+
+@spec
+def is_tip(ex, v):
+    from .values import EnumV
+
+    return isinstance(v, EnumV) and v.cls == "Tip"
+
+
+@spec
+def tip_number_ok(ex, v):
+    """v denotes one of the eight tips: an int 1..8 or a Tip member other than Any"""
+    from .values import EnumV
+
+    if isinstance(v, EnumV) and v.cls == "Tip":
+        c = ops.compare(ex, "!=", v.value, -1)
+        return c
+    if is_int(ex, v):
+        return ops.and_(ex, ops.compare(ex, "<=", 1, v), ops.compare(ex, "<=", v, 8))
+    return False
+
+
+@spec
+def tip_bit(ex, v):
+    """mask bit of one tip symbol: 2^(n-1) for an int n, the member's value for a Tip"""
+    from .values import EnumV
+
+    if isinstance(v, EnumV):
+        return v.value
+    return pow2(ex, ops.binop(ex, "-", v, 1))
+
+
+@spec
+def tip_of_int(ex, n):
+    """the Tip member for tip number n (1..8)"""
+    from .values import EnumV
+
+    return EnumV("Tip", pow2(ex, ops.binop(ex, "-", n, 1)))
+
+
+@spec
+def is_collection(ex, v):
+    return isinstance(v, (SeqV, Arr2V)) or type(v).__name__ in ("SetV", "MapV")
+
+
+@spec
+def tip_collection_ok(ex, v):
+    """every member of the collection denotes one of the eight tips"""
+    if not isinstance(v, SeqV):
+        raise Unsupported("tip_collection_ok on non-sequence")
+    if v.is_concrete_len():
+        r = True
+        for x in v.concrete_items():
+            r = ops.and_(ex, r, tip_number_ok(ex, x))
+        return r
+    n = ops.seq_len(v)
+    i = z3.Int(ex.p.fresh_name("tc"))
+    e = zbool(unwrap_bool(tip_number_ok(ex, ops.seq_get(ex, v, Sym(i, "int")))))
+    return mk_bool(z3.ForAll([i], z3.Implies(z3.And(i >= 0, i < term(n, "int")), e)))
+
+
+@spec
+def tipmask(ex, v):
+    """Tecan tip mask of a tip argument: bitwise OR of the members = sum over the eight tips of
+    2^(t-1) * [tip t is a member]; a scalar gives its own bit; Tip.Any gives -1."""
+    from .values import EnumV
+
+    if isinstance(v, SeqV):
+        total = 0
+        for t in range(1, 9):
+            bit = 2 ** (t - 1)
+            if v.is_concrete_len():
+                present = False
+                for x in v.concrete_items():
+                    e = ops.compare(ex, "==", tip_bit(ex, x), bit)
+                    if isinstance(e, bool):
+                        present = True if e else present
+                        if e:
+                            break
+                    else:
+                        present = e if present is False else mk_bool(z3.Or(unwrap_bool(present), unwrap_bool(e)))
+            else:
+                n = ops.seq_len(v)
+                i = z3.Int(ex.p.fresh_name("tm"))
+                e = zbool(unwrap_bool(ops.compare(ex, "==", tip_bit(ex, ops.seq_get(ex, v, Sym(i, "int"))), bit)))
+                present = mk_bool(z3.Exists([i], z3.And(i >= 0, i < term(n, "int"), e)))
+            if isinstance(present, bool):
+                total = ops.binop(ex, "+", total, bit if present else 0)
+            else:
+                total = ops.binop(ex, "+", total, ops.ite(ex, unwrap_bool(present), bit, 0))
+        return total
+    return tip_bit(ex, v)
+
+
+@spec
+def fmt_volume(ex, v):
+    """the volume printed with two decimals after rounding to two decimals"""
+    r = lib.np_round(ex, v, 2)
+    return lib.format_value(ex, r, ".2f")
+
+
+@spec
+def as_float(ex, v):
+    """float(v) for numeric v (spec side: numeric inputs only)"""
+    return lib.to_float(ex, v)
